@@ -6,7 +6,7 @@ namespace Driver.CallsEng
 open Rlbox Driver
 
 def faultOf : String → Fault
-  | "a" => .argConv | "b" => .body | "r" => .resultConv | _ => .none
+  | "a" | "av" => .argConv | "b" => .body | "r" => .resultConv | _ => .none   -- "nv"/"av": the void flavour, same crossings
 
 mutual
   /-- parse `{I sb arg f {C ...}* E}*` ; returns the invocations and the remaining tokens -/
